@@ -44,7 +44,7 @@ func plan(thorough bool) []family {
 			{Name: "1-layer/bolt-deep", Shapes: []string{"r"}, Backends: []string{"bolt"}, Scens: []string{"S/chain", "S/ffmid"}, Depth: 3, NKeys: 3, NVals: 2, LowerWrites: true},
 			{Name: "1-layer/level-deep", Shapes: []string{"p"}, Backends: []string{"level"}, Scens: []string{"S/sibling", "M/dbl"}, Depth: 3, NKeys: 3, NVals: 2, LowerWrites: true},
 			{Name: "2-layers", Shapes: []string{"rr", "rp", "pp", "pr"}, Backends: allBackends, Scens: scMix, Depth: 2, NKeys: 3, NVals: 2, LowerWrites: true},
-			{Name: "3-layers", Shapes: []string{"rrr", "rpp", "prp"}, Backends: allBackends, Scens: []string{"S/chain", "S/sibling", "S/dbl", "M/ffmid", "M/fftop"}, Depth: 2, NKeys: 3, NVals: 2, LowerWrites: true},
+			{Name: "3-layers", Shapes: []string{"rrr", "rpp"}, Backends: allBackends, Scens: []string{"S/chain", "S/sibling", "S/dbl", "M/ffmid", "M/fftop"}, Depth: 2, NKeys: 3, NVals: 2, LowerWrites: true},
 		}
 	}
 	return []family{
